@@ -8,6 +8,7 @@ pub mod c06;
 pub mod c07;
 pub mod c08;
 pub mod c10;
+pub mod c11;
 
 #[derive(Clone, Copy, PartialEq, Debug)]
 pub enum Tier {
@@ -31,7 +32,7 @@ pub struct PropDef {
 }
 
 pub fn all() -> Vec<PropDef> {
-    vec![c02::def(), c03::def(), c06::def(), c07::def(), c08::def(), c10::def()]
+    vec![c02::def(), c03::def(), c06::def(), c07::def(), c08::def(), c10::def(), c11::def()]
 }
 
 pub fn find(id: &str) -> Option<PropDef> {
